@@ -37,7 +37,7 @@ ASSUMPTIONS = [
     'residue is looked for in the HTTP component (generic container scan) and by gc reachability of the socket object after the '
     'harness dropped its own references',
 ]
-REQUIRED = ['status_400', 'status_505', 'status_500', 'status_200_dispatched', 'closed_without_response', 'waited_no_response',
+REQUIRED = ['application_failed_on_a_dispatched_request', 'status_400', 'status_505', 'status_500', 'status_200_dispatched', 'closed_without_response', 'waited_no_response',
             'exception_event_seen', 'disconnect_mid_message', 'disconnect_after_response', 'canary_answered', 'residue_scans',
             'weakref_checks', 'responses_parsed_by_reference', 'responses_crosschecked_http_client', 'reject_class_complete',
             'truncation_cases', 'multi_read_cases', 'ref_parser_selftest_checks', 'announced_close_followed_by_close', 'hostile_message_asked_with_HEAD']
@@ -91,6 +91,7 @@ def env():
             super().__init__()
             self.seen = []
             self.dirty = []      # (name, value) of header fields handed to the application with NUL, CR or LF in them
+            self.fail = False    # the application fails on every request it is handed (except the harness' canary)
 
         @handler('request', priority=10)
         def _v_on_request(self, event, req, res, *args):
@@ -102,6 +103,8 @@ def env():
             for k, v in items:
                 if any(c in str(k) + str(v) for c in '\x00\r\n'):
                     self.dirty.append((str(k)[:40], str(v)[:80]))
+            if self.fail and req.path != '/canary':
+                raise RuntimeError('c14: the application fails while handling the request event')
             return PROBE_BODY.decode()
 
     _ENV.update(HTTP=HTTP, read=read, disconnect=disconnect, FakeSock=FakeSock, Wire=Wire, Probe=Probe)
@@ -158,6 +161,7 @@ def observe(case):
     w = E['Wire']()
     http = E['HTTP'](w).register(w)
     probe = E['Probe']().register(w)
+    probe.fail = case.get('app') == 'failing'
     w.settle()
     s = E['FakeSock']()
     obs = {'steps': [], 'crash': None, 'closed': False, 'disconnected': False, 'delivered': 0}
@@ -339,7 +343,7 @@ def judge(case, obs):
         res.append(('ERROR_STATUS_FOR_REJECTED', not bad and (bool(statuses) or obs['closed']),
                     {'class': cls, 'statuses': statuses, 'closed': obs['closed']}, cls))
     follow = case.get('then_good')
-    if follow is not None and obs['delivered'] > follow and obs['steps'][follow - 1]['written']:
+    if follow is not None and obs['delivered'] > follow and obs['steps'][follow - 1]['written'] and case.get('app') != 'failing':
         # the component answered the hostile message and did NOT close: the connection it kept must still serve a good request
         st = obs['steps'][follow]
         rs, err = ref_http.parse_responses(st['written'], closed=bool(st['closes']))
@@ -352,7 +356,8 @@ def judge(case, obs):
         if NOT_NORMAL.search(target) and not any_request and statuses and all(s in (301, 302, 307, 308) for s in statuses):
             pass     # a target that is not in the server's normal form: it redirects by itself instead of asking the application
         else:
-            res.append(('WELL_FORMED_DISPATCHED', any_request and statuses == [200], {'statuses': statuses, 'request_events': any_request}, cls))
+            want = [500] if case.get('app') == 'failing' else [200]     # (an application that fails is answered for, once)
+            res.append(('WELL_FORMED_DISPATCHED', any_request and statuses == want, {'statuses': statuses, 'request_events': any_request, 'expected': want}, cls))
     if obs['disconnected'] and obs['crash'] is None:
         clean = not obs['residue_scan'] and obs['reachable'] is None
         res.append(('NO_STATE_AFTER_DISCONNECT', clean, {'containers_holding_the_socket': obs['residue_scan'],
@@ -457,6 +462,8 @@ def evaluate(b, case):
         if m:
             code = int(m.group(1))
             b.reached('status_%d%s' % (code, '_dispatched' if code == 200 and st['requests'] else ''))
+            if code == 500 and st['requests'] and case.get('app') == 'failing':
+                b.reached('application_failed_on_a_dispatched_request')
             rs, err, _m = parse_answer(case, st['written'], bool(st['closes']))
             if err is None and len(rs) == 1:
                 b.reached('responses_parsed_by_reference')
@@ -684,6 +691,10 @@ def corpus_cases():
     for good, tag in ((GOOD, 'get'), (GOOD_POST, 'post'), (GOOD_CHUNKED, 'chunked'), (GOOD_GZIP, 'gzip')):
         cases.append(make_case('well-formed', 'accept', good, good))
         cases.append(make_case('well-formed', 'accept', good, good, disconnect_after=None))
+        # the application fails on what it is handed: answered for exactly once (in one read, in two reads, kept open)
+        cases.append(make_case('well-formed', 'accept', good, good, app='failing'))
+        cases.append(make_case('well-formed', 'accept', good, good, app='failing', disconnect_after=None))
+        cases.append(make_case('well-formed', 'any', good, good, chunks=[good[:len(good) // 2], good[len(good) // 2:]], app='failing'))
         # truncation at every offset, then disconnect; a proper prefix of a well-formed message is an incomplete message:
         # the only admissible reaction is to wait for the rest
         for cut in range(0, len(good)):
@@ -817,6 +828,8 @@ def gen_case(rng):
     extra = {}
     if cls == 'truncated' or (disc is not None and disc < len(chunks)):
         extra['truncated'] = True
+    if rng.random() < 0.15:
+        extra['app'] = 'failing'      # whatever is dispatched makes the application fail: that, too, is answered exactly once
     return make_case(cls, expect, data, orig if expect != 'accept' else data, chunks=chunks, disconnect_after=disc, **extra)
 
 
